@@ -236,4 +236,4 @@ unsafe impl Send for IoData {}
 
 #[cfg(kani)]
 #[path = "/verif/harness/may/io_sys_unix_mod.rs"]
-mod verif_kani;
+pub(crate) mod verif_kani;
